@@ -18,7 +18,7 @@
 (***************************************************************************)
 EXTENDS MergeObs
 
-CONSTANTS N, MaxClient, Mode
+CONSTANTS N, MaxClient, Mode, Small   \* Small: reduced child scripts, for the exhaustive configuration
 
 Ev(i, k, t) == [id |-> i, author |-> "a", kind |-> k, ts |-> t, tags |-> <<>>]
 X == Ev("x", 1, 2)   Y == Ev("y", 1, 1)   Z == Ev("z", 2, 3)
@@ -43,10 +43,14 @@ ClientAlphabet == IF Mode = "req" THEN {MReq("s", FA), MReq("s", FB), MClose("s"
                   ELSE {MEvent("e1"), MCount("c1")}
 
 \* what a child may answer
-ReqScripts(s) == { <<MSEvent(s, X), MSEvent(s, Y), MEose(s)>>,       \* stored, sorted
-                   <<MEose(s), MSEvent(s, Z)>>,                      \* EOSE then a live event
-                   <<MSEvent(s, Y), MSEvent(s, X), MEose(s)>>,       \* unsorted
-                   <<MSEvent(s, X), MSEvent(s, X), MSEvent(s, Z), MEose(s)>> }  \* duplicate + other kind
+ReqScripts(s) == IF Small
+                 THEN { <<MSEvent(s, X), MEose(s)>>,                   \* one stored event
+                        <<MSEvent(s, Y), MSEvent(s, X), MEose(s)>>,    \* unsorted pair, X shared with the other script
+                        <<MEose(s), MSEvent(s, Z)>> }                  \* EOSE then a live event
+                 ELSE { <<MSEvent(s, X), MSEvent(s, Y), MEose(s)>>,       \* stored, sorted
+                        <<MEose(s), MSEvent(s, Z)>>,                      \* EOSE then a live event
+                        <<MSEvent(s, Y), MSEvent(s, X), MEose(s)>>,       \* unsorted
+                        <<MSEvent(s, X), MSEvent(s, X), MSEvent(s, Z), MEose(s)>> }  \* duplicate + other kind
 Scripts(i, m) ==
   CASE m.k = "REQ"   -> ReqScripts(m.sub)
     [] m.k = "EVENT" -> { <<MOk(m.id, TRUE, "")>>, <<MOk(m.id, FALSE, IF i = 1 THEN "blocked: one" ELSE "no")>> }
